@@ -1054,8 +1054,8 @@ fn check_lm_linear(ctx: &mut Ctx, c: &LmCase) -> R {
     }
     let (lmax, lmin) = eig_jtj(&j, n, p).unwrap_or((f64::INFINITY, 0.0));
     let cond = lmax / lmin;
-    if !(cond <= 1e6) {
-        ctx.case(sub, &format!("{}/skipped-cond>1e6", c.class), false, h);
+    if !(cond <= 1e9) {
+        ctx.case(sub, &format!("{}/skipped-cond>1e9", c.class), false, h);
         return Ok(());
     }
     // LM's documented stopping rule ‖Jᵀr‖∞ ≤ eps1 is absolute: it may stop at any p with
@@ -1112,6 +1112,28 @@ fn check_lm_linear(ctx: &mut Ctx, c: &LmCase) -> R {
         p, n, c.class, cond, c.start, popt, pls, dist, tol
     );
     ctx.worst("lm/linear: |p - p_LS| / (1e-6 (1+|p_LS|) + stop rule + rss resolution)", dist / tol);
+    // The same problem with the default gradient tolerance eps1 = 1e-6 (step tolerance and budget unchanged): either
+    // the run ends on ‖Jᵀr‖∞ ≤ eps1, where ‖p − p_LS‖ = ‖(JᵀJ)⁻¹Jᵀr‖ ≤ √p·eps1/λ_min rigorously, or it never meets that
+    // test and is iterate for iterate the run above. A gradient test that is looser than the documented absolute one
+    // (for instance relative to the size of JᵀJ) leaves an error that this bound does not cover.
+    let allow6 = 2.0 * (p as f64).sqrt() * 1e-6 / lmin;
+    if allow6 <= 1e-2 * (1.0 + norm2(&pls)) {
+        cc.eps1 = 1e-6;
+        let popt6 = match cc.run() {
+            Ok(v) => v.0,
+            Err(msg) => return fail("C10/lm/panic", format!("LM(1e-6,1e-12,1e-2) budget 100 on a linear model ({} points, {} parameters) from {:?} panicked: {}", n, p, c.start, msg)),
+        };
+        ctx.label(sub, "also-run-with-eps1=1e-6");
+        let dist6 = dist2(&popt6, &pls);
+        let tol6 = 1e-6 * (1.0 + norm2(&pls)) + allow6 + floor;
+        ensure!(
+            dist6 <= tol6,
+            "C10/lm/linear-reaches-ls",
+            "{} parameters / {} points ({}, cond(JtJ) = {:.1e}, lambda_min = {:.3e}), start {:?}: LM(1e-6,1e-12,1e-2) with budget 100 returned {:?}, the least-squares solution is {:?} (distance {:e}; the gradient test ‖Jᵀr‖∞ <= 1e-6 allows at most {:e})",
+            p, n, c.class, cond, lmin, c.start, popt6, pls, dist6, tol6
+        );
+        ctx.worst("lm/linear (eps1 = 1e-6): |p - p_LS| / (1e-6 (1+|p_LS|) + sqrt(p) eps1 / lambda_min + rss resolution)", dist6 / tol6);
+    }
     Ok(())
 }
 
@@ -1280,7 +1302,7 @@ fn build_linear(r: &LmRaw) -> LmCase {
     let mut terms = vec![];
     for j in 0..np {
         let phi = basis_fn(family, j, &mut pool);
-        let colscale = [1.0, 1.0, 0.5, 10.0][(pool.next().unsigned_abs() % 4) as usize];
+        let colscale = [1.0, 1.0, 0.5, 10.0, 1.0, 100.0, 0.01, 1000.0][(pool.next().unsigned_abs() % 8) as usize];
         let phi = if colscale == 1.0 { phi } else { mul(c(colscale), phi) };
         terms.push(mul(p(j), phi));
     }
@@ -1773,7 +1795,7 @@ Distinct by the hash of the whole serialised case."
         "budgets are compared only on the prefix of the trajectory on which the reference stays finite (< 1e100) and six shadow trajectories (objective data and iterates perturbed by 1e-14 relative, two with systematic and four with pseudo-random signs) stay within 3% of the tolerance (chaotic or diverging continuations are outside what a 1e-10 comparison can decide)".into(),
         "an early stop is accepted when the reference iterates changed by at most 16 eps |x| per coordinate (relative) at the stopping step".into(),
         "objectives avoid `f64 / Var` and powi(0) of the reverse crate (wrong / NaN derivative weights in reverse 0.2.2, a dependency, not the library under test)".into(),
-        "LM linear-reaches-ls: LM::new(1e-12, 1e-12, 1e-2), budget 100 steps, cond(J^T J) <= 1e6 by the oracle's Jacobi eigenvalues; covariance skipped when cond(J^T J) > 1e10 or the residual sum of squares is dominated by rounding".into(),
+        "LM linear-reaches-ls: LM::new(1e-12, 1e-12, 1e-2) and LM::new(1e-6, 1e-12, 1e-2), budget 100 steps, cond(J^T J) <= 1e9 by the oracle's Jacobi eigenvalues, basis columns scaled by 0.01..1000; covariance skipped when cond(J^T J) > 1e10 or the residual sum of squares is dominated by rounding".into(),
     ];
     let kmax = ctx.scale(200, 200) as usize;
     for c in enumerated_early() {
